@@ -1347,10 +1347,14 @@ impl PhysicalOperator for HashJoinExec {
         // Emit unmatched BUILD rows exactly once: the last probe partition to
         // finish scans the shared matched bits.
         if let Some(matched) = &cache.build_matched {
+            #[cfg(feature = "verif-hooks")]
+            crate::verif::yield_point(21);
             let done = cache
                 .completed_partitions
                 .fetch_add(1, std::sync::atomic::Ordering::SeqCst)
                 + 1;
+            #[cfg(feature = "verif-hooks")]
+            crate::verif::yield_point(22);
             if done == self.output_partitions().max(1) {
                 let mut unmatched: Vec<(usize, usize)> = Vec::new();
                 for (batch_idx, flags) in matched.iter().enumerate() {
@@ -3115,6 +3119,8 @@ fn probe_vectorized(
     // the probe side had multiple partitions.)
     if matches!(join_type, JoinType::Right | JoinType::Full) {
         if let Some(shared) = shared_build_matched {
+            #[cfg(feature = "verif-hooks")]
+            crate::verif::yield_point(20);
             for (batch_idx, flags) in build_matched.iter().enumerate() {
                 for (row_idx, &m) in flags.iter().enumerate() {
                     if m {
@@ -3457,6 +3463,8 @@ fn probe_hash_table(
     // exactly once. Emitting them here as well would duplicate them.
     if matches!(join_type, JoinType::Left | JoinType::Right | JoinType::Full) {
         if let Some(shared) = shared_build_matched {
+            #[cfg(feature = "verif-hooks")]
+            crate::verif::yield_point(20);
             for (batch_idx, flags) in build_matched.iter().enumerate() {
                 for (row_idx, &m) in flags.iter().enumerate() {
                     if m {
